@@ -12,6 +12,10 @@
                                                        rebuild(y0, m0) on a fresh object, then ydayset / mdayset / wdayset /
                                                        ddayset (y, m, d) → ok <start> <end> [i:v,…  the non-None entries] | err Kind
     rrgen.timeset <args17> <kind 0..2> <h> <m> <s>     htimeset / mtimeset / stimeset → ok [h,m,s,…] | err Kind
+    rrgen.initwhole <args17>                          Gen.init (the whole translated constructor) → ok <normalised rule, as rrule.construct> | err Kind
+    rrgen.init <args17>                               the translated sections of rrule.__init__ (Gen.init_*) in source order:
+                                                       ok bysetpos bymonth byyearday byeaster bymonthday(pos/neg) byweekno byweekday/bynweekday byhour byminute bysecond timeset | err Kind
+                                                       (interval check first; bymonth / bymonthday through the defaults section)
   `<args17>` is the argument set of Ops/RRule.lean; the rule is the model's `construct` of it (compared with the
   implementation's normalised state by `rrule.construct` in the same correspondence).
 -/
@@ -63,8 +67,54 @@ def showDayset (x : Py.R (List (Option Int) × Int × Int)) : String :=
 def showTimes (x : Py.R (List HMS)) : String :=
   Py.showR (fun l => showIntList (l.flatMap fun t => [t.1, t.2.1, t.2.2])) x
 
+/-- the translated sections of `rrule.__init__` in source order on an argument set; `~` where the section's input is the
+    product of the (not yet translated) defaults block -/
+def runInit (a : Args) : String :=
+  let sec (x : Py.R (Option (List Int))) (k : Option (List Int) → String) : String :=
+    match x with
+    | .error e => "err " ++ e.name
+    | .ok v => k v
+  match Gen.init_interval a.interval with
+  | .error e => "err " ++ e.name
+  | .ok _ =>
+  sec (Gen.init_bysetpos a.bysetpos) fun s1 =>
+  match Gen.init_defaults a.freq a.dtstart a.bymonth a.bymonthday a.byyearday a.byeaster a.byweekno a.byweekday with
+  | .error e => "err " ++ e.name
+  | .ok (bm, bmd, bwd) =>
+  sec (Gen.init_bymonth bm) fun s2 =>
+  sec (Gen.init_byyearday a.byyearday) fun s3 =>
+  sec (Gen.init_byeaster a.byeaster) fun s4 =>
+  match Gen.init_bymonthday bmd with
+  | .error e => "err " ++ e.name
+  | .ok (p, n) =>
+  sec (Gen.init_byweekno a.byweekno) fun s6 =>
+  match Gen.init_byweekday a.freq bwd with
+  | .error e => "err " ++ e.name
+  | .ok (wd, nwd) =>
+  sec (Gen.init_byhour a.freq a.dtstart a.interval a.byhour) fun s7 =>
+  sec (Gen.init_byminute a.freq a.dtstart a.interval a.byminute) fun s8 =>
+  sec (Gen.init_bysecond a.freq a.dtstart a.interval a.bysecond) fun s9 =>
+  match Gen.init_timeset a.freq s7 s8 s9 with
+  | .error e => "err " ++ e.name
+  | .ok ts =>
+  "ok " ++ " ".intercalate [Ops.RRule.showOL s1, Ops.RRule.showOL s2, Ops.RRule.showOL s3, Ops.RRule.showOL s4,
+    showIntList p ++ "/" ++ showIntList n, Ops.RRule.showOL s6,
+    Ops.RRule.showOL wd ++ "/" ++ (match nwd with | none => "-" | some l => showIntList (l.flatMap fun q => [q.1, q.2])),
+    Ops.RRule.showOL s7, Ops.RRule.showOL s8, Ops.RRule.showOL s9,
+    (match ts with | none => "-" | some l => showIntList (l.flatMap fun t => [t.1, t.2.1, t.2.2]))]
+
 def handle (op : String) (args : List String) : Option String :=
   if !op.startsWith "rrgen." then none else
+  if op == "rrgen.initwhole" then
+    -- `wkst@k` of the wire form is already resolved by parseArgs? (the ambient first weekday is folded into wkst)
+    (match Ops.RRule.parseArgs? (args.take 17) with
+     | some a => some (Py.showR Ops.RRule.showRule (Gen.init 0 a.tz a.freq a.dtstart a.interval a.wkst a.count a.untilDT a.bysetpos
+         a.bymonth a.bymonthday a.byyearday a.byeaster a.byweekno a.byweekday a.byhour a.byminute a.bysecond false))
+     | none => some "bad-args") else
+  if op == "rrgen.init" then
+    (match Ops.RRule.parseArgs? (args.take 17) with
+     | some a => some (runInit a)
+     | none => some "bad-args") else
   match op, args with
   | "rrgen.byset", [k, start, l, base] =>
     match parseInt? k, parseInt? start, parseIntList? l, parseInt? base with
